@@ -63,7 +63,7 @@ func main() {
 		loopBound  = flag.Int("loop-bound", 5000, "unwinding bound per loop header and activation")
 		pathSteps  = flag.Int64("path-steps", 20_000_000, "SSA instruction budget per path")
 		witness    = flag.Bool("witness", false, "reachability-witness mode (verif_witness() ends the path)")
-		z3bin      = flag.String("solver", "z3", "solver binary (z3, z3-new, cvc5)")
+		z3bin      = flag.String("solver", "z3-new", "solver binary (z3-new = z3 5.1.0, z3 = 4.8.12, cvc5)")
 		qtimeout   = flag.Int("qtimeout", 10000, "per-query timeout in ms")
 		dump       = flag.String("dump", "", "directory for standalone .smt2 copies of verdict queries")
 		maxDump    = flag.Int("max-dump", 50, "max dumped queries per entry")
@@ -72,6 +72,7 @@ func main() {
 		extraInit  = flag.String("init", "", "comma separated extra packages whose init may run")
 		concLimit  = flag.Int("conc-limit", 0, "explore only the K smallest feasible values of each symbolic size/offset (0 = all)")
 		loopCut    = flag.String("loop-cut", "", "Func=N: prune paths that visit a block of a function whose name contains Func more than N times in one activation")
+		tags       = flag.String("tags", "", "comma separated tags enabling //verif:stub-if <tag> directives")
 		list       = flag.Bool("list", false, "list harness entry functions (H_*) and exit")
 	)
 	flag.Parse()
@@ -133,6 +134,12 @@ func main() {
 	}
 
 	// stub directives: //verif:stub <callee full name> on harness functions
+	tagSet := map[string]bool{}
+	for _, t := range strings.Split(*tags, ",") {
+		if t != "" {
+			tagSet[t] = true
+		}
+	}
 	stubs := map[string]*ssa.Function{}
 	packages.Visit(pkgs, nil, func(p *packages.Package) {
 		for _, f := range p.Syntax {
@@ -148,6 +155,13 @@ func main() {
 				}
 				for _, c := range fd.Doc.List {
 					txt := strings.TrimSpace(strings.TrimPrefix(c.Text, "//"))
+					if strings.HasPrefix(txt, "verif:stub-if ") {
+						// conditional stub: //verif:stub-if <tag> <target>, active with -tags <tag>
+						f := strings.Fields(strings.TrimPrefix(txt, "verif:stub-if "))
+						if len(f) >= 2 && tagSet[f[0]] {
+							txt = "verif:stub " + strings.Join(f[1:], " ")
+						}
+					}
 					if strings.HasPrefix(txt, "verif:stub ") {
 						target := strings.TrimSpace(strings.TrimPrefix(txt, "verif:stub "))
 						sf := sp.Func(fd.Name.Name)
